@@ -11,7 +11,7 @@ func init() {
 		NotDecided: "correctness of the hash implementations; that Verify's re-scan after an algorithm switch reads exactly the bytes written; pre-existing corrupt files in a directory.",
 	})
 	registerProperty(&Property{ID: "C02", DesignRef: "DESIGN.md §4 C02, §3.3",
-		Rules:      []string{"TS-BOUNDREAD", "TS-ACK", "TS-SERVE", "TS-CONTENT-FIRST#push", "TS-STORED-THEN-INDEXED#push", "TS-REFUSE#push", "TS-REFUSE#upload", "SH-WORKLIST#complete", "SH-CONVERT-MARK#loader", "SH-WORKLIST#skip-set", "SH-SWEEP-GUARD#safety", "SH-ROOTS#safety", "TS-TAGKEEP", "TB-MEDIATYPE", "FS-CLEANUP"},
+		Rules:      []string{"TS-BOUNDREAD", "TS-ACK", "TS-SERVE", "TS-CONTENT-FIRST#push", "TS-STORED-THEN-INDEXED#push", "TS-REFUSE#push", "TS-REFUSE#upload", "SH-WORKLIST#complete", "SH-SCAN-QUEUE", "SH-CONVERT-MARK#loader", "SH-WORKLIST#skip-set", "SH-SWEEP-GUARD#safety", "SH-ROOTS#safety", "TS-TAGKEEP", "TB-MEDIATYPE", "FS-CLEANUP"},
 		Technique:  techPath,
 		Decided:    "the manifest body is read through a bound above the limit and an oversized body is refused on every path to the insert (never stored cut); no 2xx / `return nil` is reachable when a commit call failed, was not tested or was discarded (abstract error values tracked per path); content is stored before the index entry naming it; served headers and body come from the recorded descriptor; the child descriptors of nested indexes are rebuilt completely on every index load (worklist discipline of the scan), so manifests acknowledged by digest stay addressable after a restart; the collector removes nothing a retained manifest references (skip-set discipline, sweep guards and root selection shared with C05), so acknowledged content disappears only by policy.",
 		NotDecided: "byte identity after arbitrary histories; range arithmetic (net/http.ServeContent); the full retention policy matrix (C05).",
@@ -59,7 +59,7 @@ func init() {
 		NotDecided: "multi-step requests being all-or-nothing; GC deleting blobs before saving the index; stray temp files; power-failure durability (outside the property).",
 	})
 	registerProperty(&Property{ID: "C10", DesignRef: "DESIGN.md §4 C10, §3.5",
-		Rules:      []string{"TS-SAVE", "FS-INIT", "FS-CLEANUP", "LK-COPY", "SH-WORKLIST#complete", "SH-CONVERT-MARK#loader", "TS-HASHBYTES", "SH-SWEEP-GUARD#exact", "TS-LOADSTAMP", "TS-TOMBSTONE"},
+		Rules:      []string{"TS-SAVE", "FS-INIT", "FS-CLEANUP", "LK-COPY", "SH-WORKLIST#complete", "SH-SCAN-QUEUE", "SH-CONVERT-MARK#loader", "TS-HASHBYTES", "SH-SWEEP-GUARD#exact", "TS-LOADSTAMP", "TS-TOMBSTONE"},
 		Technique:  "filesystem-effect and path analysis on go/ssa",
 		Decided:    "every index mutation ends in a save whose result is returned; layout initialised (or known to exist) before the first write on every path; the empty-repository cleanup removes content before markers, stops at the first failure, knows every registered algorithm directory, reports success once the markers are gone and clears the exists flag on exactly that result; the initialiser repairs a layout file that fails the openers' content check; every index load runs the ingest whose child scan processes everything it queues.",
 		NotDecided: "equality of answers across restart / across stores (value-level); child-descriptor rebuild.",
@@ -79,7 +79,7 @@ func init() {
 			"function-typed cache fields through which the call graph finds callees are installed (non-nil); PrunePreFn/PrunePostFn are installed together"},
 	})
 	registerProperty(&Property{ID: "C13", DesignRef: "DESIGN.md §4 C13, §3.2",
-		Rules:       []string{"LK-GUARD", "LK-GLOBALS", "LK-COPY", "TB-DEEP", "TS-POOL"},
+		Rules:       []string{"LK-GUARD", "LK-GLOBALS", "LK-COPY", "TB-DEEP", "TS-POOL", "LK-RETAIN"},
 		Technique:   "static lockset (Eraser/RacerD style) over the lock engine's per-access held sets, with publication analysis",
 		Decided:     "every field of the server, store and cache structs that is written after publication is accessed under one common mutex in every calling context (constructor accesses on unpublished objects exempt); values leaving a critical section are deep copies (every reference field of the copied types re-allocated).",
 		NotDecided:  "races on objects reachable only through pointers the lockset model does not track; library internals; ordering by channel / wait-group happens-before is not credited.",
@@ -104,13 +104,13 @@ func init() {
 		NotDecided: "symlinks inside the root; case-insensitive filesystems; per-repository isolation of in-memory maps as a value property.",
 	})
 	registerProperty(&Property{ID: "C17", DesignRef: "DESIGN.md §4 C17, §3.7",
-		Rules:      []string{"LK-SELF#ingest", "SH-IDEMPOTENT", "SH-WORKLIST#term", "SH-WORKLIST#complete", "SH-CONVERT-MARK", "TS-CONTENT-FIRST#ingest", "TS-STORED-THEN-INDEXED#ingest", "TS-SAVE#ingest", "SH-GROUP-KEY", "TS-REFDESC", "SH-SWAP-REMOVE", "TB-GRAMMAR#anchor"},
+		Rules:      []string{"LK-SELF#ingest", "SH-IDEMPOTENT", "SH-WORKLIST#term", "SH-WORKLIST#complete", "SH-CONVERT-MARK", "TS-CONTENT-FIRST#ingest", "TS-STORED-THEN-INDEXED#ingest", "TS-SAVE#ingest", "SH-GROUP-KEY", "TS-REFDESC", "SH-SWAP-REMOVE", "TB-GRAMMAR#anchor", "SH-CONVERT-ATOMIC", "SH-CONVERT-MERGE"},
 		Technique:  "lock analysis on the conversion's call chain; shape and path rules on go/ssa and the typed AST",
 		Decided:    "the conversion cannot block on a mutex it already holds; re-creating an already stored response is tolerated (repeatability after interruption); the conversion and child-scan loops terminate; the converted marker is set on every normal exit and the modified result leads to a save; a regenerated response is stored before it is indexed.",
 		NotDecided: "losslessness; grouping by actual subject; equality of the results of repeated conversions (value-level).",
 	})
 	registerProperty(&Property{ID: "C19", DesignRef: "DESIGN.md §4 C19, §3.6",
-		Rules:      []string{"TB-FLAGS", "TB-DEFAULTS", "TB-NILCONF", "TB-ROUTE", "LK-SHUTDOWN", "LK-GUARD-SERVER", "TS-SHUTDOWN", "TS-CONF-LIST", "FS-RO", "TS-REFERRER-CALL#setting", "SH-CONVERT-MARK#setting"},
+		Rules:      []string{"TB-FLAGS", "TB-DEFAULTS", "TB-NILCONF", "TB-ROUTE", "LK-SHUTDOWN", "LK-GUARD-SERVER", "TS-SHUTDOWN", "TS-CONF-LIST", "FS-RO", "TS-REFERRER-CALL#setting", "SH-CONVERT-MARK#setting", "PV-CLIENT-KEY"},
 		Technique:  "table agreement on the typed AST (flags, option fields, configuration paths, defaults); guard dominance in the router; lock analysis of the shutdown path",
 		Decided:    "flag → option → configuration path wiring equals the documented table, flag defaults equal SetDefaults defaults, defaulting never overwrites a set value; every mutating route is gated by its switch; the rate-limit entry is updated under one mutex; the shutdown path is free of lock cycles and closes the store on every path on which the HTTP shutdown succeeded.",
 		NotDecided: "per-second accounting; signal handling outcome; every-combination behaviour as values.",
@@ -121,5 +121,10 @@ func init() {
 		Decided:    "at each of the four removal sites an entry is removed only after its cleanup ran with that key and returned nil (or no cleanup is configured / the entry is absent); entries, per-entry time and timer are only touched under the cache mutex; the cache mutex is released on every exit; every lookup of a found entry refreshes its last-use time and every insertion initialises it (the structural half of ‘least recently used’).",
 		NotDecided: "LRU order, expiry timing, prune-back-to-limit (value-level); what happens to the old value when Set overwrites a key.",
 	})
-	notApplicable["C18"] = "value-level property of a data structure (contents of the index after arbitrary AddDesc/RmDesc/AddChildren sequences): no sound static argument in this family bounds it; its one structural clause (copies are independent) is decided by TB-DEEP under C11/C13"
+	registerProperty(&Property{ID: "C18", DesignRef: "DESIGN.md §4 C18",
+		Rules:      []string{"SH-INDEX-SCAN", "SH-SWAP-REMOVE#index", "TS-TAGKEEP", "TS-GETDESC", "TB-DEEP"},
+		Technique:  "loop-shape rules on go/ssa (range coverage of every scan of the entry lists, re-examination after swap-removal), path-sensitive typestate on the index's editing methods, field-exhaustive deep-copy check on the typed AST",
+		Decided:    "the structural conditions without which the index cannot keep its invariants for every sequence: every loop of the index type that scans an entry list examines the whole list (no first/last entry exempt from tag uniqueness, single referrers response, removal of every reference, lookup); a loop that removes by moving the last entry into the slot examines that slot again; an entry is dropped or overwritten only after its own annotations were looked at, or on the ‘no tag requested’ edge of a removal by digest, which removes every entry of the digest; lookup by tag returns the annotated entry and lookup by digest searches both the top-level and the child list and returns a bare descriptor; Copy re-allocates every reference field of index and descriptor.",
+		NotDecided: "the contents of the index as a value after a given sequence (which entry wins a replacement, order, what AddDesc does to an entry that is compatible in one annotation and not the other); at-most-once listing of untagged digests; that GetByAnnotation's answer is the last insertion.",
+	})
 }
